@@ -147,84 +147,144 @@ Proof. induction l as [|a r IH]; intros k; cbn; [reflexivity|]. now rewrite IH. 
 Lemma existsb_sort_desc f l : existsb f (sort_desc l) = existsb f l.
 Proof. unfold sort_desc. now rewrite existsb_sorted, map_snd_indexed_from. Qed.
 
+(** [Repaired]: the candidates of a command are the text before the first tab of every line, always *)
+Lemma lines_acc_no_nl : forall s cur,
+    contains_char c_nl cur = false ->
+    Forall (fun l => contains_char c_nl l = false) (lines_acc s cur).
+Proof.
+  induction s as [|c r IH]; intros cur Hc; [constructor|].
+  cbn [lines_acc]. destruct (aeq c c_nl) eqn:E.
+  - constructor; [exact Hc|]. now apply IH.
+  - apply IH. clear IH. induction cur as [|d cur IHc]; cbn [append contains_char].
+    + unfold aeq in E. rewrite E. reflexivity.
+    + apply contains_char_cons in Hc as [A B]. unfold aeq in A. rewrite A. now apply IHc.
+Qed.
+
+Lemma until_tab_no_nl l : contains_char c_nl l = false -> contains_char c_nl (until_tab l) = false.
+Proof.
+  induction l as [|d l IH]; intros H; [reflexivity|].
+  apply contains_char_cons in H as [A B]. cbn [until_tab].
+  destruct (aeq d c_tab); [reflexivity|]. cbn [contains_char]. unfold aeq in A. rewrite A. now apply IH.
+Qed.
+
+Theorem filter_lines_repaired_spec output : filter_lines_repaired output = spec_candidates output.
+Proof.
+  unfold filter_lines_repaired, spec_candidates.
+  pose proof (lines_acc_no_nl output EmptyString eq_refl) as H. fold (complete_lines output) in H.
+  change (sconcat (map (fun l => (until_tab l ++ String c_nl "")%string) (complete_lines output)))
+    with (sconcat (map (fun l => (until_tab l ++ nl)%string) (complete_lines output))).
+  rewrite <- (map_map until_tab (fun l => (l ++ nl)%string)).
+  change (sconcat (map (fun l => (l ++ nl)%string) (map until_tab (complete_lines output))))
+    with (unlines (map until_tab (complete_lines output))).
+  apply readarray_unlines. apply Forall_map. eapply Forall_impl; [|exact H].
+  intros l Hl. now apply until_tab_no_nl.
+Qed.
+
 (** *** 3. the walk and the completion loop against the specification *)
 Section TopLevel.
   Variables (v : variant) (tabs : alltables) (e : env).
   Hypothesis Hfree : spec_subword_free tabs.
-  Hypothesis Hclean : forall cid, filter_lines (cmd_output e cid) = spec_candidates (cmd_output e cid).
+  (** holds for the quirky variants on clean environments, and for [Repaired] always *)
+  Hypothesis Hcands : forall cid, command_lines v (cmd_output e cid) = spec_candidates (cmd_output e cid).
   Hypothesis Hcase : e_ignore_case e = false.
 
-  Lemma run_cmd_spec cid a1 a2 log : run_cmd tabs e cid a1 a2 log = spec_call tabs e cid a1 a2 log.
-  Proof. unfold run_cmd, spec_call. destruct (nthN (a_commands tabs) cid); [|reflexivity]. now rewrite Hclean. Qed.
+  Lemma run_cmd_spec cid a1 a2 log : run_cmd v tabs e cid a1 a2 log = spec_call tabs e cid a1 a2 log.
+  Proof. unfold run_cmd, spec_call. destruct (nthN (a_commands tabs) cid); [|reflexivity]. now rewrite Hcands. Qed.
 
-  Lemma top_cmd_loop_spec w last : plain w = true -> forall cmds log r log',
-      spec_cmd_loop tabs e cmds w last log = Ok (r, log', false) ->
-      top_cmd_loop tabs e cmds w last log
+  Lemma top_cmd_loop_spec w last : (quirky v = true -> plain w = true) -> forall cmds log r log' esc,
+      spec_cmd_loop tabs e cmds w last log = Ok (r, log', esc) ->
+      (quirky v = true -> esc = false) ->
+      top_cmd_loop v tabs e cmds w last log
       = Ok (match r with Some to => WNext to | None => WNone end, log').
   Proof.
-    intros Hw. induction cmds as [|[cid to] rest IH]; intros log r log' H.
-    - cbn in H. injection H as <- <-. reflexivity.
+    intros Hw. induction cmds as [|[cid to] rest IH]; intros log r log' esc H Hq.
+    - cbn in H. injection H as <- <- _. reflexivity.
     - cbn [spec_cmd_loop top_cmd_loop] in *. rewrite run_cmd_spec.
       destruct (spec_call tabs e cid "" "" log) as [[cands log1]| | |]; cbn [obind] in *; try discriminate.
       destruct cands as [|c cs].
       + cbn [existsb] in H.
         destruct (spec_cmd_loop tabs e rest w last log1) as [[[r2 l2] esc2]| | |] eqn:E; cbn [obind] in H; try discriminate.
         injection H as <- <- Hesc. rewrite andb_false_r, orb_false_r in Hesc. subst esc2.
-        now apply IH.
-      + rewrite (any_glob_plain w Hw), existsb_sort_desc. cbn [obind].
-        destruct (existsb (String.eqb w) (c :: cs)).
-        * injection H as <- <-. reflexivity.
-        * destruct (spec_cmd_loop tabs e rest w last log1) as [[[r2 l2] esc2]| | |] eqn:E; cbn [obind] in H; try discriminate.
-          injection H as <- <- Hesc. apply orb_false_iff in Hesc as [-> Hl]. rewrite andb_true_r in Hl. subst last.
-          now apply IH.
+        eapply IH; eauto.
+      + destruct (quirky v) eqn:Q.
+        * rewrite (any_glob_plain w (Hw eq_refl)), existsb_sort_desc. cbn [obind].
+          destruct (existsb (String.eqb w) (c :: cs)).
+          -- injection H as <- <- _. reflexivity.
+          -- destruct (spec_cmd_loop tabs e rest w last log1) as [[[r2 l2] esc2]| | |] eqn:E; cbn [obind] in H; try discriminate.
+             injection H as <- <- Hesc.
+             specialize (Hq eq_refl). rewrite Hq in Hesc.
+             apply orb_false_iff in Hesc as [-> Hl]. rewrite andb_true_r in Hl. subst last.
+             cbn [andb]. eapply IH; eauto.
+        * rewrite existsb_sort_desc. cbn [obind].
+          destruct (existsb (String.eqb w) (c :: cs)).
+          -- injection H as <- <- _. reflexivity.
+          -- destruct (spec_cmd_loop tabs e rest w last log1) as [[[r2 l2] esc2]| | |] eqn:E; cbn [obind] in H; try discriminate.
+             injection H as <- <- Hesc.
+             rewrite andb_false_r. eapply IH; eauto. discriminate.
   Qed.
 
-  Lemma walk_spec : forall ws state log r log',
-      Forall (fun w => plain w = true) ws ->
-      spec_walk tabs e state ws log = Ok (r, log', false) ->
+  Lemma walk_spec : forall ws state log r log' esc,
+      (quirky v = true -> Forall (fun w => plain w = true) ws) ->
+      spec_walk tabs e state ws log = Ok (r, log', esc) ->
+      (quirky v = true -> esc = false) ->
       walk v tabs e state ws log = Ok (r, log').
   Proof.
-    induction ws as [|w rest IH]; intros state log r log' Hp H.
-    - cbn in H. injection H as <- <-. reflexivity.
-    - inversion Hp as [|? ? Hw Hrest]; subst.
+    induction ws as [|w rest IH]; intros state log r log' esc Hp H Hq.
+    - cbn in H. injection H as <- <- _. reflexivity.
+    - assert (Hw : quirky v = true -> plain w = true).
+      { intros Q. specialize (Hp Q). now inversion Hp. }
+      assert (Hrest : quirky v = true -> Forall (fun w => plain w = true) rest).
+      { intros Q. specialize (Hp Q). now inversion Hp. }
       cbn [spec_walk walk] in *.
       destruct (match assocN state (t_mlit (a_main tabs)) with
                 | Some st => top_lit_loop (indexed_from 0 (literal_texts (a_main tabs))) st w
                 | None => None
                 end) as [to|].
-      { now apply IH. }
+      { eapply IH; eauto. }
       destruct Hfree as [Hs _]. rewrite Hs. cbn [assocN obind].
       set (last := match rest with [] => true | _ => false end) in *.
+      (* the tail of both functions after the command loop *)
+      assert (Tail : forall r1 l1 esc1,
+                 match r1 with
+                 | Some to => do (r2, log2, esc2) <- spec_walk tabs e to rest l1; Ok (r2, log2, esc1 || esc2)
+                 | None =>
+                   match (match t_mstar (a_main tabs) with Some stars => assocN state stars | None => None end) with
+                   | Some to => do (r2, log2, esc2) <- spec_walk tabs e to rest l1; Ok (r2, log2, esc1 || esc2)
+                   | None => Ok (None, l1, esc1)
+                   end
+                 end = Ok (r, log', esc) ->
+                 (quirky v = true -> esc1 = false)
+                 /\ match (match r1 with Some to => WNext to | None => WNone end) with
+                    | WNext to => walk v tabs e to rest l1
+                    | WEscape => Ok (Some state, l1)
+                    | WNone =>
+                      match (match t_mstar (a_main tabs) with Some stars => assocN state stars | None => None end) with
+                      | Some to => walk v tabs e to rest l1
+                      | None => Ok (None, l1)
+                      end
+                    end = Ok (r, log')).
+      { intros r1 l1 esc1 HT.
+        destruct r1 as [to|].
+        - destruct (spec_walk tabs e to rest l1) as [[[r2 l2] esc2]| | |] eqn:E2; cbn [obind] in HT; try discriminate.
+          injection HT as <- <- Hesc. split.
+          + intros Q. specialize (Hq Q). rewrite Hq in Hesc. now apply orb_false_iff in Hesc as [-> _].
+          + eapply IH; eauto. intros Q. specialize (Hq Q). rewrite Hq in Hesc.
+            now apply orb_false_iff in Hesc as [_ ->].
+        - destruct (match t_mstar (a_main tabs) with Some stars => assocN state stars | None => None end) as [to|].
+          + destruct (spec_walk tabs e to rest l1) as [[[r2 l2] esc2]| | |] eqn:E2; cbn [obind] in HT; try discriminate.
+            injection HT as <- <- Hesc. split.
+            * intros Q. specialize (Hq Q). rewrite Hq in Hesc. now apply orb_false_iff in Hesc as [-> _].
+            * eapply IH; eauto. intros Q. specialize (Hq Q). rewrite Hq in Hesc.
+              now apply orb_false_iff in Hesc as [_ ->].
+          + injection HT as <- <- ->. split; [exact Hq|reflexivity]. }
       destruct (t_mcmd (a_main tabs)) as [ct|].
       + destruct (assocN state ct) as [row|].
         * destruct (spec_cmd_loop tabs e (assoc_of row) w last log) as [[[r1 l1] esc1]| | |] eqn:E;
             cbn [obind] in H; try discriminate.
-          assert (esc1 = false) as ->.
-          { destruct r1 as [to|].
-            - destruct (spec_walk tabs e to rest l1) as [[[r2 l2] esc2]| | |]; cbn [obind] in H; try discriminate.
-              injection H as _ _ Hesc. now apply orb_false_iff in Hesc as [-> _].
-            - destruct (match t_mstar (a_main tabs) with Some stars => assocN state stars | None => None end) as [to|].
-              + destruct (spec_walk tabs e to rest l1) as [[[r2 l2] esc2]| | |]; cbn [obind] in H; try discriminate.
-                injection H as _ _ Hesc. now apply orb_false_iff in Hesc as [-> _].
-              + now injection H. }
-          rewrite (top_cmd_loop_spec w last Hw _ _ _ _ E). cbn [obind].
-          destruct r1 as [to|].
-          -- destruct (spec_walk tabs e to rest l1) as [[[r2 l2] esc2]| | |] eqn:E2; cbn [obind] in H; try discriminate.
-             injection H as <- <- Hesc. cbn [orb] in Hesc. subst esc2. now apply IH.
-          -- destruct (match t_mstar (a_main tabs) with Some stars => assocN state stars | None => None end) as [to|].
-             ++ destruct (spec_walk tabs e to rest l1) as [[[r2 l2] esc2]| | |] eqn:E2; cbn [obind] in H; try discriminate.
-                injection H as <- <- Hesc. cbn [orb] in Hesc. subst esc2. now apply IH.
-             ++ injection H as <- <-. reflexivity.
-        * cbn [obind] in *.
-          destruct (match t_mstar (a_main tabs) with Some stars => assocN state stars | None => None end) as [to|].
-          -- destruct (spec_walk tabs e to rest log) as [[[r2 l2] esc2]| | |] eqn:E2; cbn [obind] in H; try discriminate.
-             injection H as <- <- Hesc. cbn [orb] in Hesc. subst esc2. now apply IH.
-          -- injection H as <- <-. reflexivity.
-      + cbn [obind] in *.
-        destruct (match t_mstar (a_main tabs) with Some stars => assocN state stars | None => None end) as [to|].
-        * destruct (spec_walk tabs e to rest log) as [[[r2 l2] esc2]| | |] eqn:E2; cbn [obind] in H; try discriminate.
-          injection H as <- <- Hesc. cbn [orb] in Hesc. subst esc2. now apply IH.
-        * injection H as <- <-. reflexivity.
+          destruct (Tail r1 l1 esc1 H) as [Hq1 HW].
+          rewrite (top_cmd_loop_spec w last Hw _ _ _ _ _ E Hq1). cbn [obind]. exact HW.
+        * cbn [obind] in *. destruct (Tail None log false H) as [_ HW]. exact HW.
+      + cbn [obind] in *. destruct (Tail None log false H) as [_ HW]. exact HW.
   Qed.
 
   Variable p : string.
@@ -248,7 +308,7 @@ Section TopLevel.
       nothing was offered *)
   Lemma top_cmds_level_spec : forall cids cands matches log m' l',
       spec_cmds_level tabs e cids p matches log = Ok (m', l') ->
-      exists cands', top_cmds_level tabs e cids p cands matches log = Ok (cands', m', l')
+      exists cands', top_cmds_level v tabs e cids p cands matches log = Ok (cands', m', l')
                      /\ (filter (String.prefix p) cands = [] -> m' = [] -> filter (String.prefix p) cands' = []).
   Proof.
     induction cids as [|cid r IH]; intros cands matches log m' l' H.
@@ -270,22 +330,25 @@ Section TopLevel.
       forall res, spec_levels n level tabs e state p log = Ok res ->
       top_levels n level v tabs e state p cands [] log = Ok res.
   Proof.
-    induction n as [|n IH]; intros level state cands log Hinv res H.
+    induction n as [|n IH]; intros level state cands log Hinv0 res H.
     - exact H.
     - cbn [spec_levels top_levels] in *.
+      set (cands0 := if quirky v then cands else []).
+      assert (Hinv : filter (String.prefix p) cands0 = []) by (unfold cands0; destruct (quirky v); [exact Hinv0|reflexivity]).
+      clearbody cands0.
       set (lits := map (fun id => (literal_at (a_main tabs) id ++ " ")%string)
                        (level_row (t_clit (a_main tabs)) level state)) in *.
-      assert (Hm : (match cands ++ lits with [] => Ok [] | _ => match_fn e p (cands ++ lits) end)
+      assert (Hm : (match cands0 ++ lits with [] => Ok [] | _ => match_fn e p (cands0 ++ lits) end)
                    = (Ok (filter (String.prefix p) lits) : M (list string))).
-      { replace (filter (String.prefix p) lits) with (filter (String.prefix p) (cands ++ lits))
+      { replace (filter (String.prefix p) lits) with (filter (String.prefix p) (cands0 ++ lits))
           by (now rewrite filter_app, Hinv).
-        destruct (cands ++ lits); [reflexivity|]. now apply match_fn_prefix_filter. }
+        destruct (cands0 ++ lits); [reflexivity|]. now apply match_fn_prefix_filter. }
       rewrite Hm. cbn [obind List.app].
       destruct Hfree as [_ Hc]. rewrite Hc. cbn [top_subs_level obind].
       destruct (t_ccmd (a_main tabs)) as [cc|].
       + destruct (spec_cmds_level tabs e (level_row cc level state) p (filter (String.prefix p) lits) log)
           as [[m' l']| | |] eqn:E; cbn [obind] in H; try discriminate.
-        destruct (top_cmds_level_spec _ (cands ++ lits) _ _ _ _ E) as (cands' & -> & Hinv'). cbn [obind].
+        destruct (top_cmds_level_spec _ (cands0 ++ lits) _ _ _ _ E) as (cands' & -> & Hinv'). cbn [obind].
         destruct m' as [|x m'].
         * apply IH; [|exact H]. apply Hinv'; [|reflexivity].
           rewrite filter_app, Hinv. cbn [List.app].
@@ -299,7 +362,33 @@ Section TopLevel.
   Qed.
 End TopLevel.
 
-(** *** the theorem: on the clean top-level domain the interpreter does what the specification says *)
+(** *** the theorems *)
+Theorem run_from_spec_gen :
+  forall v start tabs e ws p r esc,
+    spec_subword_free tabs -> e_ignore_case e = false -> printable_str p = true ->
+    (forall cid, command_lines v (cmd_output e cid) = spec_candidates (cmd_output e cid)) ->
+    (quirky v = true -> Forall (fun w => plain w = true) ws) ->
+    spec_run start tabs e ws p = Ok (r, esc) ->
+    (quirky v = true -> esc = false) ->
+    run_from v start tabs e ws p = Ok r.
+Proof.
+  intros v start tabs e ws p r esc Hfree Hcase Hp Hc Hws H Hq.
+  unfold spec_run in H. unfold run_from.
+  destruct (spec_walk tabs e start ws []) as [[[st log] esc0]| | |] eqn:E; cbn [obind] in H; try discriminate.
+  assert (esc0 = esc) as ->.
+  { destruct st as [state|].
+    - destruct (spec_levels _ 0 tabs e state p log) as [[reply log1]| | |]; cbn [obind] in H; try discriminate.
+      now injection H.
+    - now injection H. }
+  rewrite (walk_spec v tabs e Hfree Hc ws start [] st log esc Hws E Hq). cbn [obind].
+  destruct st as [state|].
+  - destruct (spec_levels _ 0 tabs e state p log) as [[reply log1]| | |] eqn:E2; cbn [obind] in H; try discriminate.
+    rewrite (top_levels_spec v tabs e Hfree Hc Hcase p Hp _ 0 state [] log eq_refl _ E2). cbn [obind].
+    now injection H as <-.
+  - now injection H as <-.
+Qed.
+
+(** the templates before the repair: on the clean domain, outside the escape situation *)
 Theorem run_from_spec :
   forall v start tabs e ws p r,
     spec_subword_free tabs -> clean_env e -> e_ignore_case e = false ->
@@ -308,18 +397,22 @@ Theorem run_from_spec :
     run_from v start tabs e ws p = Ok r.
 Proof.
   intros v start tabs e ws p r Hfree Hclean Hcase Hws Hp H.
-  pose proof (clean_env_candidates e Hclean) as Hc.
-  unfold spec_run in H. unfold run_from.
-  destruct (spec_walk tabs e start ws []) as [[[st log] esc]| | |] eqn:E; cbn [obind] in H; try discriminate.
-  assert (esc = false) as ->.
-  { destruct st as [state|].
-    - destruct (spec_levels _ 0 tabs e state p log) as [[reply log1]| | |]; cbn [obind] in H; try discriminate.
-      now injection H.
-    - now injection H. }
-  rewrite (walk_spec v tabs e Hfree Hc ws start [] st log Hws E). cbn [obind].
-  destruct st as [state|].
-  - destruct (spec_levels _ 0 tabs e state p log) as [[reply log1]| | |] eqn:E2; cbn [obind] in H; try discriminate.
-    rewrite (top_levels_spec v tabs e Hfree Hc Hcase p Hp _ 0 state [] log eq_refl _ E2). cbn [obind].
-    now injection H as <-.
-  - now injection H as <-.
+  apply (run_from_spec_gen v start tabs e ws p r false Hfree Hcase Hp); try assumption; try tauto.
+  intros cid. unfold command_lines. destruct (quirky v).
+  - now apply clean_env_candidates.
+  - apply filter_lines_repaired_spec.
+Qed.
+
+(** the repaired templates: for every environment and every command line *)
+Theorem run_from_spec_repaired :
+  forall start tabs e ws p r esc,
+    spec_subword_free tabs -> e_ignore_case e = false -> printable_str p = true ->
+    spec_run start tabs e ws p = Ok (r, esc) ->
+    run_from Repaired start tabs e ws p = Ok r.
+Proof.
+  intros start tabs e ws p r esc Hfree Hcase Hp H.
+  apply (run_from_spec_gen Repaired start tabs e ws p r esc Hfree Hcase Hp); try assumption.
+  - intros cid. apply filter_lines_repaired_spec.
+  - discriminate.
+  - discriminate.
 Qed.
